@@ -298,7 +298,9 @@ class Lexer:
             if char is not None and char in "+-":
                 self._position += 1
 
-            self._read_over_integer()
+            # ExponentPart :: ExponentIndicator Sign? Digit+ (leading zeros are
+            # allowed here, unlike in IntegerPart).
+            self._read_over_digits()
 
         # Explicit lookahead restrictions.
         try:
